@@ -1,6 +1,7 @@
 package engines
 
 import (
+	"sort"
 	"encoding/json"
 	"fmt"
 	"strings"
@@ -119,9 +120,17 @@ var faultVariants = func() []faultVariant {
 	return v
 }()
 
+// quickVariants: the reduced grid applied in the quick tier to the configurations outside the rotating three.
+var quickVariants = []faultVariant{
+	{"resp_lost", 0, 0}, {"chip_power_cycle", 0, 0}, {"resp_truncate", -1, 0}, {"resp_truncate", 2, 0}, {"resp_garble", 0, 0x01}, {"resp_garble", -3, 0x01},
+	{"resp_oversize", 1, 1}, {"resp_replay", -1, 0}, {"resp_swap", 0, 0}, {"do_drop", 0, 0}, {"do_drop", -1, 0}, {"do_dup", 0, 0}, {"do_reorder", 0, 0},
+	{"sw_mismatch", 1, 0}, {"resp_status", 0x9000, 0}, {"resp_status", 0x6982, 0}, {"resp_status", 0x6700, 0},
+}
+
 type baseline struct {
 	e           int
 	transitions []int
+	files       []string // LDS files (EF.COM, EF.SOD, data groups) the fault-free read returns
 }
 
 var baselineCache = map[int]baseline{}
@@ -133,6 +142,14 @@ func baselineFor(cfg int, spec world.WorldSpec) baseline {
 	out := &core.Outcome{}
 	r := runRead(spec, nil, out, nil)
 	b := baseline{e: r.Link.N}
+	if r.Doc != nil {
+		for name := range docFileMap(&r.Doc.Document) {
+			if name == "com" || name == "sod" || strings.HasPrefix(name, "dg") {
+				b.files = append(b.files, name)
+			}
+		}
+		sort.Strings(b.files)
+	}
 	for _, ex := range r.Chip.Log {
 		a := ex.Action
 		if strings.HasPrefix(a, "mse") || strings.HasPrefix(a, "pace step4") || strings.HasPrefix(a, "ca general") || strings.HasPrefix(a, "external-authenticate") ||
@@ -176,6 +193,26 @@ func (E2EFaultEngine) Gen(prop, tier string, seed uint64, yield func(c any) bool
 			for _, v := range faultVariants {
 				if !yield(FaultCase{Config: ci, Faults: []term.Fault{{At: k, Kind: v.kind, A: v.a, B: v.b}}}) {
 					return
+				}
+			}
+		}
+	}
+	if tier != "thorough" {
+		// the configurations outside this run's rotation: every exchange index x one or two representatives of each fault kind
+		inUse := map[int]bool{}
+		for _, ci := range use {
+			inUse[ci] = true
+		}
+		for ci := range cfgs {
+			if inUse[ci] {
+				continue
+			}
+			b := baselineFor(ci, cfgs[ci])
+			for k := 0; k < b.e; k++ {
+				for _, v := range quickVariants {
+					if !yield(FaultCase{Config: ci, Faults: []term.Fault{{At: k, Kind: v.kind, A: v.a, B: v.b}}}) {
+						return
+					}
 				}
 			}
 		}
@@ -282,6 +319,17 @@ func (E2EFaultEngine) Run(prop string, ci any) *core.Outcome {
 			out.Probe("clear_file_modified")
 			if d.Mf.Lds1.Dg14 != nil && sum.DataTrusted {
 				out.Violate("C11", "trusted-with-modified-cardaccess", sig, "EF.CardAccess was modified in transit, DG14 is present, yet the result is DataTrusted")
+			}
+		}
+		// (2b) "ends with an error or with that step recorded as failed": a read that reports completion without any
+		// recorded failure must hold every LDS file the fault-free read of the same chip returns (these files are
+		// read under secure messaging, where the link cannot forge an authentic "not found")
+		if s := r.Doc.Session; r.Err == nil && s.BacErr == nil && s.PaceErr == nil && s.ChipAuthErr == nil && s.ActiveAuthErr == nil && s.DocumentVerifyErr == nil && s.PassiveAuthErr == nil {
+			got := docFileMap(&d)
+			for _, name := range b.files {
+				if _, ok := got[name]; !ok {
+					out.Violate("C11", "file-silently-missing", name, "the read completed without an error and without a step recorded as failed, but %s (stored on the chip, returned by the fault-free read) is missing under faults %v", name, c.Faults)
+				}
 			}
 		}
 		// (3) reported successes are ones the chip completed
